@@ -62,6 +62,7 @@ type Obligation struct {
 	PC      *Term
 	Goal    *Term
 	Trivial bool
+	Vacuous bool // reachability obligation of a harness whose end no path reaches
 	Pos     string
 	Result  *SolveResult
 	Inputs  []inputRec
@@ -145,6 +146,8 @@ type Exec struct {
 	noSafety     bool
 	specOverride map[*ssa.Function]*FuncSpec
 	initVals     map[*ssa.Package]map[*ssa.Global]Value
+	facts        map[int]bool
+	eqConst      map[int]*Term
 }
 
 type ioGhost struct {
@@ -182,11 +185,65 @@ func (x *Exec) assume(t *Term) {
 	if x.dry > 0 {
 		return
 	}
+	if x.pc().IsTrue() {
+		x.noteFacts(t)
+	}
 	t = Imp(x.pc(), t)
 	if t.IsTrue() {
 		return
 	}
 	x.assumes = append(x.assumes, t)
+}
+
+// noteFacts records unconditional literals (and equalities with constants) among the
+// assumptions, so that branches they decide are not explored.
+func (x *Exec) noteFacts(t *Term) {
+	if x.facts == nil {
+		x.facts = map[int]bool{}
+		x.eqConst = map[int]*Term{}
+	}
+	for _, c := range conj(t) {
+		if c.Op == ONot {
+			x.facts[c.Args[0].id] = false
+			continue
+		}
+		x.facts[c.id] = true
+		if c.Op == OEq {
+			a, b := c.Args[0], c.Args[1]
+			if a.IsConst() {
+				a, b = b, a
+			}
+			if b.IsConst() && !a.IsConst() {
+				x.eqConst[a.id] = b
+			}
+		}
+	}
+}
+
+// decideByFacts simplifies a branch condition with the recorded facts.
+func (x *Exec) decideByFacts(c *Term) *Term {
+	if x.facts == nil || c.IsConst() {
+		return c
+	}
+	if v, ok := x.facts[c.id]; ok {
+		return BoolC(v)
+	}
+	switch c.Op {
+	case ONot:
+		r := x.decideByFacts(c.Args[0])
+		if r.IsConst() {
+			return Not(r)
+		}
+	case OEq:
+		a, b := c.Args[0], c.Args[1]
+		if a.IsConst() {
+			a, b = b, a
+		}
+		if k, ok := x.eqConst[a.id]; ok && b.IsConst() {
+			return BoolC(k.Val.Cmp(b.Val) == 0)
+		}
+	}
+	return c
 }
 
 func (x *Exec) noteInput(name string, v *Term, t types.Type) {
@@ -236,8 +293,15 @@ func (x *Exec) oblige(class, label string, goal *Term, pos token.Pos) {
 		o.Pos = x.P.Fset.Position(pos).String()
 	}
 	x.obls = append(x.obls, o)
+	if os.Getenv("GOVC_DEBUG_OBL") != "" {
+		fmt.Fprintf(os.Stderr, "OBL %s trivial=%v pc=%s goal=%s\n", name, o.Trivial, x.pc().Short(), goal.Short())
+	}
 	// later obligations may rely on this one
 	x.assume(goal)
+	if class == "S" && goal.IsFalse() && x.st != nil {
+		// a definite panic: the path ends here
+		x.st.pc = False()
+	}
 }
 
 var fnNames = map[*ssa.Function]string{}
@@ -329,7 +393,7 @@ func (x *Exec) run(fr *Frame, st *State, b *ssa.BasicBlock, stop *ssa.BasicBlock
 			st.from = b
 			b = b.Succs[0]
 		case *ssa.If:
-			c := term(x.get(t.Cond))
+			c := x.decideByFacts(term(x.get(t.Cond)))
 			st.from = b
 			if c.IsTrue() {
 				b = b.Succs[0]
@@ -1091,7 +1155,22 @@ func (x *Exec) convert(v Value, from, to types.Type) Value {
 			return Scalar{Resize(term(v), ts.W, isSigned(from))}
 		}
 		if isString(to) {
-			unsup("integer to string conversion")
+			// string(c) for an integer c: the UTF-8 encoding of the code point; modelled for c < 0x800
+			c := Resize(term(v), 32, isSigned(from))
+			small := BvUlt(c, BVU(0x80, 32))
+			if !(x.ghost > 0) {
+				x.oblige("S", "rune-range", BvUlt(c, BVU(0x800, 32)), token.NoPos)
+			}
+			b0 := Ite(small, Extract(c, 7, 0), BvOr(BVU(0xC0, 8), Extract(BvLshr(c, BVU(6, 32)), 7, 0)))
+			b1 := BvOr(BVU(0x80, 8), BvAnd(Extract(c, 7, 0), BVU(0x3f, 8)))
+			o := x.newObject(types.Typ[types.Uint8], "runestr")
+			ln := Ite(small, bv64(1), bv64(2))
+			if ln.IsConst() && ln.U64() == 1 {
+				x.st.heap.m[o] = ArrayV{[]Value{Scalar{b0}}}
+			} else {
+				x.st.heap.m[o] = SymArrV{Arr: Store(Store(ConstArr(BVU(0, 8)), bv64(0), b0), bv64(1), b1), Len: ln, W: 8}
+			}
+			return SliceV{Obj: o, Off: bv64(0), Len: ln, Cap: ln, Nil: False(), Str: true}
 		}
 	}
 	_, fromSlice := from.Underlying().(*types.Slice)
@@ -1710,7 +1789,7 @@ func (x *Exec) callStatic(fr *Frame, fn *ssa.Function, args []Value, bind []Valu
 		return x.smtCall(fn, k, args)
 	}
 	if !ghost {
-		if sp := x.P.specs[name]; sp != nil && sp.HasContract() && !sp.Inline && x.P.harnessOf[sp.Key()] != nil {
+		if sp := x.pickBehavior(fn, name, args); sp != nil && sp.HasContract() && !sp.Inline && x.P.harnessOf[sp.Key()] != nil {
 			return x.useContract(fr, fn, sp, args, pos)
 		}
 	}
@@ -1986,4 +2065,90 @@ func (x *Exec) mergeGhost(c *Term, a, b map[string][]Value) map[string][]Value {
 		}
 	}
 	return m
+}
+
+// pickBehavior selects the contract case a call site is checked against: the first case whose
+// shape clauses agree with the (concrete) lengths of the actual arguments; the first case otherwise.
+func (x *Exec) pickBehavior(fn *ssa.Function, name string, args []Value) *FuncSpec {
+	def := x.P.specs[name]
+	bs := x.P.behaviors[name]
+	if len(bs) <= 1 {
+		return def
+	}
+	for _, sp := range bs {
+		if sp.NoSafety || len(sp.Shape) == 0 {
+			continue
+		}
+		ok := true
+		for path, n := range sp.Shape {
+			v, found := x.resolveArgPath(fn, args, path)
+			if !found {
+				ok = false
+				break
+			}
+			sv, isS := v.(SliceV)
+			if !isS {
+				ok = false
+				break
+			}
+			if m, c := concreteLen(sv); !c || m != n {
+				ok = false
+				break
+			}
+		}
+		if ok {
+			return sp
+		}
+	}
+	// no shape-discriminated case fits: a case without shape clauses, if there is one
+	if len(def.Shape) > 0 {
+		for _, sp := range bs {
+			if !sp.NoSafety && len(sp.Shape) == 0 {
+				return sp
+			}
+		}
+	}
+	return def
+}
+
+// resolveArgPath evaluates "param.Field.Field" against the actual arguments.
+func (x *Exec) resolveArgPath(fn *ssa.Function, args []Value, path string) (Value, bool) {
+	parts := strings.Split(path, ".")
+	for i, p := range fn.Params {
+		if p.Name() != parts[0] || i >= len(args) {
+			continue
+		}
+		v := args[i]
+		t := p.Type()
+		for _, f := range parts[1:] {
+			if pt, ok := t.Underlying().(*types.Pointer); ok {
+				pv, ok2 := v.(PtrV)
+				if !ok2 || pv.Obj == nil {
+					return nil, false
+				}
+				v = x.load(pv)
+				t = pt.Elem()
+			}
+			st, ok := t.Underlying().(*types.Struct)
+			if !ok {
+				return nil, false
+			}
+			sv, ok := x.snap(v).(StructV)
+			if !ok {
+				return nil, false
+			}
+			idx := -1
+			for k := 0; k < st.NumFields(); k++ {
+				if st.Field(k).Name() == f {
+					idx = k
+				}
+			}
+			if idx < 0 {
+				return nil, false
+			}
+			v, t = sv.F[idx], st.Field(idx).Type()
+		}
+		return v, true
+	}
+	return nil, false
 }
